@@ -22,15 +22,17 @@ TECHNIQUE = 'Lean 4 proof over a hand-written model + generated read/write-set t
 LEVEL_TEXT = ("Lean 4 theorems over every row type, pair function, state, neighbour function, thread count, partition and "
               "interleaving (own_row_schedule_independence, thread_configuration_irrelevant, "
               "eval_depends_on_nbr_set_when_sorted, sorted_loop_configuration_independent, eval_indep_of_nbr_order_of_comm, "
-              "perm_equivariance, sorted_order_travels_with_particles, schedule_matters_without_discipline) about a "
+              "perm_equivariance, sorted_order_travels_with_particles, sorted_simulation_configuration_independent, "
+              "schedule_matters_without_discipline) about a "
               "hand-written model of the generated pair loop, plus own_row_discipline_table / exceptions_are_real decided "
               "over the read/write sets extracted from all 288 shipped Equation subclasses on every run. The model is tied "
               "to the generated code by bit-exact execution at Float; the property itself is evaluated on the real code by "
               "differential runs through Application.run over --nnps x --cache-nnps x --openmp/threads x --reorder-freq x "
               "--sort-gids, matched by gid.")
 LEVEL_NOTE = ("Proof of the discipline that makes schedules and neighbour order irrelevant; the system runs are sampled "
-              "(quick: ~16 configurations of the two-array problem + 5 tie traces; thorough: the option matrix on three "
-              "problems). Not covered by proof: IEEE rounding, real OpenMP interleavings/memory model, exactness of each "
-              "NNPS (C01), interference between different equations of one group, multi-step simulation as a whole "
-              "(single-loop theorems compose but the composition is not stated).")
+              "(quick: ~28 configurations of the two-array problem, every --nnps value sorted and unsorted, + 6 tie traces; "
+              "thorough: the full option matrix on three problems, ~1600 runs). Not covered by proof: IEEE rounding, real OpenMP interleavings/memory model, exactness of each "
+              "NNPS (C01), interference between different equations of one group, re-ordering inside the multi-stage theorem "
+              "(perm_equivariance is per loop). Known findings tolerated: --reorder-freq with sh/esh/strat_hash "
+              "(NotImplementedError), z-order family on multi-array problems (C01).")
 TIMEOUT = {'quick': 1500, 'thorough': 3 * 3600}
